@@ -32,7 +32,8 @@ def gen_config(g):
     seeds = G.seed_alphabet(g)
     k = g.randint(2, len(APIS))
     apis = g.sample(APIS, k) if g.random() < 0.6 else list(APIS)
-    all_faults = ["rng.draw", "rng.reseed", "rng.setstate", "rng.stdlib", "entropy", "call.fail", "gc", "lib.call"]
+    all_faults = ["rng.draw", "rng.reseed", "rng.setstate", "rng.stdlib", "entropy", "call.fail", "gc", "lib.call",
+                  "caller.scribble_output"]
     if g.random() < 0.25:
         faults = ["lib.call"]
     else:
@@ -177,6 +178,9 @@ def gen_filler(g, cfg, sigs, state):
         return {"op": "entropy.draw", "n": g.randint(1, 4)}
     if kind == "gc":
         return {"op": "gc"}
+    if kind == "caller.scribble_output":
+        # the caller works in place on something a seeded call handed out earlier
+        return {"op": "out.scribble", "which": g.randrange(64), "how": g.choice(["shuffle", "add", "zero"])}
     if kind == "call.fail":
         # a seeded call that fails midway, after the global generator was reseeded
         r = g.random()
@@ -216,7 +220,16 @@ def gen_filler(g, cfg, sigs, state):
         s = g.choice(shared)
         rec["m"] = copy.deepcopy(s["m"])
         p = spec_p(s["m"])
-        if api == "lganm.sample":
+        if api in ("lganm.sample", "anm.sample") and g.random() < 0.4:
+            # the signature's own interventions, moved to other kinds (same targets, same parameters)
+            a0 = copy.deepcopy(s["args"])
+            kinds = ["do", "shift", "noise"]
+            perm = kinds[:]
+            while perm == kinds:
+                g.shuffle(perm)
+            rec["args"] = dict(a0, **{k2: a0.get(k1, "omit") for k1, k2 in zip(kinds, perm)})
+            rec["seed"] = g.choice([s["seed"], seed])
+        elif api == "lganm.sample":
             rec["args"] = {"n": g.randint(1, 20), "do": G.lganm_ivs(g, p, "given"),
                            "shift": G.lganm_ivs(g, p), "noise": G.lganm_ivs(g, p)}
         elif api == "anm.sample":
@@ -357,6 +370,7 @@ def same_call(a, b):
 def execute(sempler, run_seed, ops, pristine_budget=4):
     w = World(sempler, run_seed, PROP)
     evs = w.events
+    w.kept = []        # the last few objects returned by seeded calls (the caller still holds them)
     prev_rec = None
     for i, rec in enumerate(ops):
         w.step = i
@@ -372,6 +386,9 @@ def execute(sempler, run_seed, ops, pristine_budget=4):
                     w.faults["callable.raise"] += 1
                 if "sig" not in rec:
                     w.faults[fkind({"rec": rec})] += 1
+            elif op == "out.scribble":
+                od = scribble_output(w, rec)
+                out = None
             elif op in SHARED_OPS:
                 od = SHARED_OPS[op](w, rec)
                 out = None
@@ -379,12 +396,52 @@ def execute(sempler, run_seed, ops, pristine_budget=4):
                 raise ValueError("unknown op %r" % op)
         except Skip:
             continue
+        if op == "call" and out[0] == "ok" and sigkey(rec) is not None:
+            w.kept.append(out[1])
+            del w.kept[:-6]
         w.record(rec, od)
         evs.append({"i": i, "rec": rec, "pre": pre, "od": od, "ok": out is not None and out[0] == "ok",
                     "sk": sigkey(rec),
                     "exc": (type(out[1]).__name__ if out is not None and out[0] == "exc" else None)})
     obligations = oracles(w, pristine_budget)
     return w, obligations
+
+
+def scribble_output(w, rec):
+    """In-place work of the caller on a returned object (incl. np.random.shuffle, a numpy random call)."""
+    from .canon import arrays_of
+    if not w.kept:
+        raise Skip()
+    obj = w.kept[rec["which"] % len(w.kept)]
+    how = rec.get("how", "shuffle")
+    done = False
+    targets = list(arrays_of(obj))
+    if isinstance(obj, (list, tuple)):
+        targets += [x for x in obj if isinstance(x, list)]
+        if isinstance(obj, list):
+            targets.append(obj)
+    for a in targets:
+        if isinstance(a, np.ndarray):
+            if a.size == 0 or not a.flags.writeable:
+                continue
+            if how == "shuffle" and a.ndim >= 1 and len(a) > 1:
+                np.random.shuffle(a)
+            elif a.dtype == bool:
+                a[...] = ~a
+            elif how == "zero":
+                a[...] = 0
+            else:
+                a += 1
+            done = True
+        elif isinstance(a, list) and a:
+            if how == "shuffle":
+                np.random.shuffle(a)
+            else:
+                a.append(a[0])
+            done = True
+    if done:
+        w.faults["caller.scribble_output"] += 1
+    return "ok:-"
 
 
 def fkind(ev):
@@ -399,6 +456,8 @@ def fkind(ev):
         return "entropy"
     if op == "gc":
         return "gc"
+    if op == "out.scribble":
+        return "caller.scribble_output"
     if op == "call":
         if rec.get("fail"):
             return "call.fail"
@@ -408,9 +467,10 @@ def fkind(ev):
     return op
 
 
-PERTURBING = {"rng.draw", "rng.reseed", "rng.setstate", "call.fail", "lib.unseeded", "lib.seeded"}
+PERTURBING = {"rng.draw", "rng.reseed", "rng.setstate", "call.fail", "lib.unseeded", "lib.seeded",
+              "caller.scribble_output"}
 FK_BITS = ["rng.draw", "rng.reseed", "rng.setstate", "rng.getstate", "rng.stdlib", "entropy", "gc", "call.fail",
-           "lib.unseeded", "lib.seeded"]
+           "lib.unseeded", "lib.seeded", "caller.scribble_output"]
 
 
 def oracles(w, pristine_budget):
@@ -463,6 +523,8 @@ def oracles(w, pristine_budget):
                     w.probes["pair.sep.py_random"] += 1
                 if "rng.setstate" in kinds:
                     w.probes["pair.sep.setstate"] += 1
+                if "caller.scribble_output" in kinds:
+                    w.probes["pair.sep.caller_scribbled_on_a_returned_object"] += 1
                 mid = rec.get("m", {}).get("id") if rec.get("m") else None
                 if mid and any(e["rec"].get("on_shared") and e["rec"]["m"].get("id") == mid
                                for e in evs[a + 1:b]):
@@ -538,7 +600,7 @@ ASSUMPTIONS = [
 REQUIRED_PROBES = ["pair.nontrivial", "pair.seed0", "pair.sep.reseed", "pair.sep.draw_only",
                    "pair.sep.failed_seeded_call", "pair.sep.entropy", "pair.sep.py_random", "pair.sep.setstate",
                    "pair.sep.intervened_call_on_shared_model", "pair.different_clients", "pair.numpy_integer_seed", "pair.sep.failed_call_on_same_model",
-                   "pair.seed>=2**32"] + \
+                   "pair.seed>=2**32", "pair.sep.caller_scribbled_on_a_returned_object"] + \
                   ["api:" + a for a in APIS] + ["noise:" + n for n in G.NOISE_FACTORIES] + \
                   ["nd:" + a for a in SAMPLERS] + ["nd.on_model_with_seeded_history"]
 
